@@ -36,6 +36,15 @@ fn run(ctx: &mut Ctx, extra: &mut BTreeMap<String, String>) {
         for &j in [0, 1, (cnt / 4).saturating_sub(1), cnt / 4, cnt / 2, cnt - 2.min(cnt - 1), cnt - 1, rng.below(cnt)].iter() { judge_cell(c, nside, (first + j.min(cnt - 1)).min(n - 1), &mut rng); }
       }
       for _ in 0..n_rings { judge_cell(c, nside, rng.below(n), &mut rng); }
+      // polar rings i whose last cell has 2.hash + 1 = (2i+1)^2 - 2 next to a power of two 2^q (the ring index is recovered through a
+      // floating-point square root of that quantity, exact below 2^53 only), from either pole
+      for q in 6..=63u32 { for off in -2i64..=2 { for &mirror in [false, true].iter() {
+        let i0 = ((2f64.powf(q as f64 / 2.0) - 1.0) / 2.0).round() as i64 + off; if i0 < 1 || i0 as u64 > ns { continue; }
+        let i = if mirror { 4 * ns - i0 as u64 } else { i0 as u64 };
+        let (first, cnt) = ring_first(ns, i);
+        for &j in [0, 1, cnt.saturating_sub(2), cnt - 1].iter() { judge_cell(c, nside, (first + j.min(cnt - 1)).min(n - 1), &mut rng); }
+        c.hard("polar-ring-whose-end-is-next-to-2^q/2(sqrt-precision)", &[ns, i]);
+      } } }
       rejections(c, nside);
     }
     let mut pts = hostile_points(&mut rng, n_pts);
